@@ -808,12 +808,15 @@ impl Indexable for ast::SimpleValue {
                 Some(Type::Bits(bits.value_list()?.values().count()))
             }
             ast::SimpleValue::List(list) => {
-                let mut value_types = list
+                // index every element, not only the one the list type is taken from
+                let value_types: Vec<Type> = list
                     .value_list()?
                     .values()
-                    .filter_map(|value| value.index(ctx));
+                    .filter_map(|value| value.index(ctx))
+                    .collect();
                 value_types
-                    .nth(0)
+                    .into_iter()
+                    .next()
                     .map(|typ| Type::List(Box::new(typ)))
                     .or(Some(Type::List(Box::new(Type::Any))))
             }
